@@ -20,7 +20,7 @@ import sys
 import time
 
 sys.path.insert(0, os.path.dirname(os.path.abspath(__file__)))
-from vlib import env, tlc, pool, datasets, vcflines
+from vlib import env, tlc, pool, isolate, datasets, vcflines
 from vlib.report import Check
 
 SPEC = os.path.join(env.SPEC, "SampleFlow")
@@ -236,24 +236,18 @@ def main():
             runs.append({"prog": prog, "group": "simple/" + gname, "units": units, "key": key,
                          "argv": argv + [inbfile if x == "@INBREEDING" else x for x in extra], "expected": names})
     ck.note("program_runs", len(runs))
-    per = 8
     order = list(range(len(runs)))
     random.Random(ck.seed).shuffle(order)
-    tasks = [{"op": "runs", "runs": [{"prog": runs[i]["prog"], "argv": runs[i]["argv"]} for i in order[x:x + per]]}
-             for x in range(0, len(order), per)]
     t0 = time.time()
     try:
-        res = pool.map_tasks("impl.c10", tasks, mode="jit")
+        flat = isolate.map_runs("impl.c10", [{"op": "run", "prog": runs[i]["prog"], "argv": runs[i]["argv"]} for i in order])
     except pool.WorkerError as e:
         ck.machinery_failure("worker failure: %s" % e)
     ck.note("program_runs_wall_s", round(time.time() - t0, 1))
-    flat = []
-    for rr in res:
-        if not rr["ok"]:
-            ck.machinery_failure("worker task failed: %s\n%s" % (rr["error"], rr.get("tb", "")))
-        flat.extend(rr["result"])
     outs = [None] * len(runs)
     for i, o in zip(order, flat):
+        if o.get("harness_error"):
+            ck.machinery_failure("worker task failed: %s\n%s" % (o["error"]["chain"], o["error"]["tb"]))
         outs[i] = o
 
     # ---- the run log ----------------------------------------------------------------------
